@@ -2,6 +2,7 @@ import EinoV.Basic.JsonUtil
 import EinoV.Model.C17
 import EinoV.Model.C17Late
 import EinoV.Model.C17Utils
+import EinoV.Model.C17Readers
 import EinoV.Expected.C17
 
 /-
@@ -22,6 +23,11 @@ import EinoV.Expected.C17
   text as two chunks {"r":"<first half>"}{"r":"<second half>"}), and fails with the error of
   the call when a = "boom".  "prior" = the calls of an earlier message sent through the same
   node; "overlap" = all calls of the message are inside their tools before the first returns.
+
+  Family `readers` (Model/C17Readers.lean): "readers":k = the node's stream has k consumers
+  (copies of it, or — hosts "graphBranch" / "graphFan" — a non-stream branch condition and
+  the node it selects / two non-stream successors), each concatenating what it received; the
+  answer lists every reader's concatenation ("readers").
 
   Family `late` (Model/C17Late.lean): a call with "late" has its streamable form send only
   the first `hold` chunks before StreamableRun returns and the others afterwards, one per
@@ -204,7 +210,12 @@ def handle (c : Json) : JE Json := do
         let coll := match collect merged with
           | .ok l => Json.mkObj [("ok", J.mkArr (l.map msgJson))]
           | .error e => Json.mkObj [("err", cerrJson e)]
+        let collJson : Except CErr (List (Option Msg)) → Json
+          | .ok l => Json.mkObj [("ok", J.mkArr (l.map msgJson))]
+          | .error e => Json.mkObj [("err", cerrJson e)]
+        let readers := (readK Expected.C17.concatFacts (J.natD c "readers" 1) merged).1
         [("sources", J.mkArr perSrc), ("ctxErrs", J.mkNats ctxErrs), ("collected", coll),
+         ("readers", J.mkArr (readers.map collJson)),
          ("nchunks", (merged.length : Nat))]) r
     else
       let r := wrap (invoke F tools handler assistant calls seen sigma)
